@@ -32,6 +32,10 @@ UNIT = {
         fn("zero_divisor_eval_error", extra=[("replace", "impl Fn() -> MachineStub + 'static", "StubGen", "R4")]),
         fn("undefined_eval_error", extra=[("replace", "impl Fn() -> MachineStub + 'static", "StubGen", "R4")]),
         fn("numerical_type_error", extra=[("replace", "impl Fn() -> MachineStub + 'static", "StubGen", "R4")]),
+        fn("rnd_f", file=F_AR, extra=[("replace", "n.get_num() as f64", "i64_as_f64(n.get_num())", "R10")]),
+        fn("result_f", file=F_AR),
+        fn("float_i_to_f", file=F_AR),
+        {"fn": "float_r_to_f", "file": F_AR, "rewrites": ["strip_head", ("name_return", "res"), "ref_ops", "ref_patterns"]},
         fn("add"),
         fn("neg", extra=[("float_neg", ["f"])]),
         fn("abs"),
@@ -41,6 +45,8 @@ UNIT = {
          "rewrites": STD, "wrap_pre": "impl ArenaFrom<i64> for Number {\n", "wrap_post": "}\n"},
         {"fn": "arena_from", "impl": r"impl ArenaFrom < isize > for Number", "file": F_FORMS, "emit_name": "arena_from_isize",
          "rewrites": STD, "wrap_pre": "impl ArenaFrom<isize> for Number {\n", "wrap_post": "}\n"},
+        {"fn": "arena_from", "impl": r"impl ArenaFrom < usize > for Number", "file": F_FORMS, "emit_name": "arena_from_usize",
+         "rewrites": STD, "wrap_pre": "impl ArenaFrom<usize> for Number {\n", "wrap_post": "}\n"},
         {"fn": "is_zero", "impl": r"impl Number", "file": F_FORMS, "emit_name": "Number_is_zero", "rewrites": STD + [("replace", "f == 0.0 || f == -0.0", "f64_is_zero(f)", "R10")],
          "wrap_pre": "impl Number {\n", "wrap_post": "}\n"},
         {"fn": "is_negative", "impl": r"impl Number", "file": F_FORMS, "emit_name": "Number_is_negative", "rewrites": STD + [("replace", "f.is_sign_negative() && f != -0f64", "f64_is_negative(f)", "R10")],
